@@ -9,6 +9,7 @@ package main
 
 import (
 	"bytes"
+	"context"
 	"encoding/base64"
 	"encoding/hex"
 	"encoding/json"
@@ -16,8 +17,11 @@ import (
 	"strings"
 	"unicode/utf8"
 
+	"github.com/ThreeDotsLabs/watermill/components/cqrs"
 	"github.com/ThreeDotsLabs/watermill/components/forwarder"
 	"github.com/ThreeDotsLabs/watermill/message"
+
+	"wmverif/c16types"
 )
 
 // ---------------------------------------------------------------- strings
@@ -360,6 +364,125 @@ func (g *gen) jwCases(n, big int) []jwCase {
 		case 21:
 			hand("invalid-utf8-inside", []byte("{\"destination_topic\":\"a\xffb\",\"uuid\":\"\xed\xa0\x80\"}"))
 		}
+	}
+	return out
+}
+
+// ---------------------------------------------------------------- message context through the envelope
+
+type ctxKeyT struct{}
+
+func ctxWith(id int) context.Context {
+	if id == 0 {
+		return nil // no context set: Message.Context() is Background
+	}
+	return context.WithValue(context.Background(), ctxKeyT{}, id)
+}
+func ctxID(c context.Context) int {
+	if v, ok := c.Value(ctxKeyT{}).(int); ok {
+		return v
+	}
+	return 0
+}
+
+type ctxCase struct {
+	In        int `json:"in"`        // context of the message being wrapped
+	Delivered int `json:"delivered"` // context put on the envelope message before unwrapping (a broker hop)
+	Wrapped   int `json:"wrapped"`   // observed on the envelope message
+	Unwrapped int `json:"unwrapped"` // observed on the unwrapped message
+}
+
+func (g *gen) ctxCases(n int) []ctxCase {
+	var out []ctxCase
+	for i := 0; i < n; i++ {
+		c := ctxCase{In: g.r.Intn(4), Delivered: g.r.Intn(4)}
+		m := g.msg(false, 64).lit()
+		if ctx := ctxWith(c.In); ctx != nil {
+			m.SetContext(ctx)
+		}
+		w, err := forwarder.VerifWrapMessageInEnvelope("t", m)
+		if err != nil {
+			panic(err)
+		}
+		c.Wrapped = ctxID(w.Context())
+		w2 := message.NewMessage(w.UUID, w.Payload) // what a subscriber hands over
+		if ctx := ctxWith(c.Delivered); ctx != nil {
+			w2.SetContext(ctx)
+		}
+		_, u, err := forwarder.VerifUnwrapMessageFromEnvelope(w2)
+		if err != nil {
+			panic(err)
+		}
+		c.Unwrapped = ctxID(u.Context())
+		g.count(fmt.Sprintf("envelope-context:in=%v,delivered=%v", c.In != 0, c.Delivered != 0))
+		out = append(out, c)
+	}
+	return out
+}
+
+// ---------------------------------------------------------------- different marshalers on the two sides
+
+type ccCase struct {
+	C     cqCase `json:"c"`      // writer side + oracles; unmarshal fields = what the READER returned
+	KindU int    `json:"kind_u"` // reader: 1 ProtoMarshaler, 2 ProtobufMarshaler
+	NoFBU bool   `json:"nofb_u"`
+}
+
+func (g *gen) ccCases(n int) []ccCase {
+	var out []ccCase
+	mk := func(kind int, nofb bool) cqrs.CommandEventMarshaler {
+		if kind == 1 {
+			return cqrs.ProtoMarshaler{}
+		}
+		return cqrs.ProtobufMarshaler{DisableStdProtoFallback: nofb}
+	}
+	name := func(kind int, nofb bool) string {
+		if kind == 1 {
+			return "Proto"
+		}
+		return fmt.Sprintf("gogo(nofb=%v)", nofb)
+	}
+	for i := 0; i < n; i++ {
+		v, desc := c16types.Generate(g.r, 2, g.str)
+		kw, ku := 1+g.r.Intn(2), 1+g.r.Intn(2)
+		nw, nu := g.r.Intn(2) == 0, g.r.Intn(2) == 0
+		if kw == 1 {
+			nw = false
+		}
+		if ku == 1 {
+			nu = false
+		}
+		c := cqCase{Kind: kw, NoFB: nw, TypeStr: hx(fmt.Sprintf("%T", v)), V: hx(c16types.Render(v)), Desc: desc}
+		c.IsMsg, c.IsGogo = c16types.IsStdProto(v), c16types.IsGogoProto(v)
+		c.VEnc, c.GEnc = c16types.StdEnc(v), c16types.GogoEnc(v)
+		w, r := mk(kw, nw), mk(ku, nu)
+		c.Name = hx(w.Name(v))
+		c.NameOther = c.Name
+		g.count("cross-config:" + name(kw, nw) + "->" + name(ku, nu) + ":" + strings.SplitN(desc, ":", 2)[0])
+		msg, err := w.Marshal(v)
+		if err != nil {
+			c.MarshalE = classifyCqErr(err)
+			if c.MarshalE == "ELib" {
+				c.MarshalE = "ELibMarshal"
+			}
+		} else {
+			o := obsMsg(msg)
+			normUUID(&o)
+			c.Msg = &o
+			c.NFM = hx(r.NameFromMessage(msg))
+			c.VDec = c16types.StdDec(msg.Payload, v)
+			c.GDec = c16types.GogoDec(msg.Payload, v)
+			fresh := c16types.Fresh(v)
+			if err := r.Unmarshal(msg, fresh); err != nil {
+				c.UnmE = classifyCqErr(err)
+				if c.UnmE == "ELib" {
+					c.UnmE = "ELibUnmarshal"
+				}
+			} else {
+				c.Unm = hx(c16types.Render(fresh))
+			}
+		}
+		out = append(out, ccCase{C: c, KindU: ku, NoFBU: nu})
 	}
 	return out
 }
